@@ -107,8 +107,16 @@ def load_known():
 
 def shard_main(argv):
     pid, shard_json, tier, seed, out = argv
-    mod = load_check(pid)
     shard = json.loads(shard_json)
+    if shard.get("import_first"):
+        # a process in which other libraries were imported BEFORE the library under test (import order is part of a
+        # process's history; by default the harness imports jaxtyping first)
+        for name in shard["import_first"]:
+            try:
+                importlib.import_module(name)
+            except Exception:  # noqa
+                pass
+    mod = load_check(pid)
     rec = Rec(pid, int(seed), shard, tier)
     t0 = time.time()
     try:
